@@ -368,6 +368,11 @@ static int c08_cmd (char *line)
   if (n == 2 && !strcmp (tok[0], "t"))
     {
       char *a[1] = { tok[1] };
+      if (!master_ob || (master_ob->flags & O_DESTRUCTED))
+        {			/* (destruct_object reloads a destructed master: not reachable) */
+          vh_out ("r top !nomaster");
+          return 1;
+        }
       c08_apply ("top", 1, a, &err);
       if (err)
         vh_out ("r top !err");
